@@ -63,6 +63,8 @@ pub fn agrees<T: Scalar>(got: Option<T>, want: Option<T>, tol: f64, tainted: boo
                 if !gf.is_finite() || !wf.is_finite() {
                     return gf == wf;
                 }
+                // tolerances are written for f64 (1e-9 of the scale); f32 gets 1e-4 of the scale
+                let tol = if T::EPS > 1e-10 { tol * 1e5 } else { tol };
                 (gf - wf).abs() <= tol
             }
         }
